@@ -197,7 +197,8 @@ def check_property(prop, cs, args, seed, lock, write_lock=False):
         by_group_owner[ob["group"]] = cgroup_of.get(ob["contract"], ob["contract"])
     discharged = [ob for ob in obligations if ob.get("status") == "discharged"]
     failed = [ob for ob in obligations if ob.get("status") != "discharged"]
-    n_err = [ob for ob in obligations if ob.get("status") == "error"]
+    n_err = [ob for ob in obligations if ob.get("status") in ("error", "vacuous")]
+    failed = [ob for ob in failed if ob.get("status") != "vacuous"]
 
     rc = 0
     messages = []
@@ -211,7 +212,7 @@ def check_property(prop, cs, args, seed, lock, write_lock=False):
             print(g["error"])
     if n_err:
         rc = max(rc, 3)
-        messages.append("solver errors: %d" % len(n_err))
+        messages.append("solver errors / vacuous preconditions: %d %s" % (len(n_err), [o["name"] for o in n_err][:3]))
     # ---- vacuity guard: per contract group, the number of obligation groups generated
     # must not fall below the committed lock (80% for the shape-enumerated groups)
     gcount = {}
